@@ -31,7 +31,10 @@ fn main() {
             let scale: usize = arg(&args, "--scale").and_then(|s| s.parse().ok()).unwrap_or(1);
             db::run(seed, cases, &mut sink, &focus, nops, big, scale)
         }
-        "image" => image::run(seed, cases, &mut sink, &outdir),
+        "image" => {
+            let only: Option<usize> = arg(&args, "--only").and_then(|s| s.parse().ok());
+            image::run(seed, cases, &mut sink, &outdir, only)
+        }
         "image-leak" => image::scenario_leak(&mut sink, &outdir),
         _ => {
             eprintln!("usage: vharness <core-pp> --seed S --cases N --out DIR");
